@@ -413,6 +413,9 @@ def c04(tier, repo=None):
                 # nil interface values on interface-typed edges: nil node output to END / to the next node (any, user interface), nil graph
                 # input, nil into a branch condition
                 ("nil", dict(Shapes=["nil1", "nil2", "nilif", "nilin", "nilbr"], NatFam="four", OCs=[1, 2], InFam="two", MaxNodes=3), None),
+                # edge + branch to the same target (multi-chunk pipe producers); END reached with no data (execution-only predecessor, every
+                # data predecessor skipped), input type string vs output type map[string]any, as Workflow and as AllPredecessor graph
+                ("ebr", dict(Shapes=["ebr", "eskw", "eskg"], NatFam="four", OCs=[1, 2], InFam="two", MaxNodes=3), 2500),
                 # last, because a hanging merge uses up the harness's quota of hung calls and the rest is then not run
                 ("wide", dict(Shapes=["fank"], NatFam="four", OCs=[2, 3], InFam="two", MaxNodes=6), None)]
     else:
@@ -423,6 +426,7 @@ def c04(tier, repo=None):
                 ("nmap", dict(Shapes=["nmap", "nmapn"], NatFam="all15", OCs=[1, 2, 3], InFam="five", MaxNodes=2, AllowFail=True), 20000),
                 ("handlers", dict(MaxNodes=2, NatFam="six", OCs=[2], InFam="three", Handlers=["none", "val", "str"], AllowAny=True, AllowFail=True), 40000),
                 ("nil", dict(Shapes=["nil1", "nil2", "nilif", "nilin", "nilbr"], NatFam="six", OCs=[1, 2, 3], InFam="three", MaxNodes=3, AllowFail=True), 40000),
+                ("ebr", dict(Shapes=["ebr", "eskw", "eskg"], NatFam="six", OCs=[1, 2, 3], InFam="three", MaxNodes=3), 40000),
                 ("wide", dict(Shapes=["fank"], NatFam="four", OCs=[1, 2, 3], InFam="five", MaxNodes=6, AllowFail=True), 20000)]
     cases, seen, gen_stats = [], set(), []
     states = trans = 0
